@@ -1,5 +1,7 @@
 // U-AIR: src/air.rs + the value types of src/symbol.rs  (properties C01 C04 C05 C07)
 #![allow(unused)]
+// emit: 22-way match with merged result; Z3's relevancy filter makes the merged postcondition explode (40 s), without it 1.5 s
+//@smt_option smt.relevancy=0
 use vstd::prelude::*;
 //@include shim.rs
 
@@ -16,7 +18,10 @@ pub broadcast proof fn lemma_i16_as_u16(x: i16)
 pub broadcast proof fn lemma_u16_as_i16(x: u16)
     ensures #[trigger] (x as i16) as int == (if x >= 0x8000 { x as int - 0x10000 } else { x as int })
 { assert((x as i16) as int == (if x >= 0x8000 { x as int - 0x10000 } else { x as int })) by (bit_vector); }
-pub broadcast group group_bv { lemma_mask9, lemma_mask10, lemma_mask11, lemma_i16_as_u16, lemma_u16_as_i16 }
+pub broadcast proof fn lemma_wrapping_sub(a: u16, b: u16)
+    ensures #[trigger] a.wrapping_sub(b) as int == (a as int - b as int) % 0x10000
+{ }
+pub broadcast group group_bv { lemma_wrapping_sub, lemma_mask9, lemma_mask10, lemma_mask11, lemma_i16_as_u16, lemma_u16_as_i16 }
 }
 }
 
@@ -36,7 +41,6 @@ verus! {
 
 //@include enc_spec.rs
 
-broadcast use crate::bv::group_bv;
 
 impl Flag {
 //@fn src/symbol.rs "impl Flag" bits ret=r props=C01
@@ -56,6 +60,9 @@ impl AsmLine {
 //@end
 
 //@fn src/air.rs "impl AsmLine" bit_offs ret=r props=C01,C04,C05,C07
+//@sub <<<let label_pos = match ref_label {>>> ==> <<<broadcast use crate::bv::group_bv;
+        proof { reveal(dist16); reveal(pcoff_spec); }
+        let label_pos = match ref_label {>>>
         requires
             ref_label is Ref,
             9 <= bits <= 11,
